@@ -261,8 +261,61 @@ def s1_floor(scn, v):
     return g_or(*[q[i] - W[i] < CUT * q[0] for i in range(len(q))])
 
 
-def s1_cover(scn, v, o):
-    """q_calc spans [q-W, sqrt((q+W)^2+L^2)] of every point."""
+def _s1_limits(scn, v):
+    """(q - L, q - W, (q+L)^2+W^2, (q+W)^2+L^2) per data point."""
+    q = v["q"]
+    L, W = scn.per_point(v)
+    n = len(q)
+    return ([q[i] - L[i] for i in range(n)], [q[i] - W[i] for i in range(n)],
+            [(q[i] + L[i]) * (q[i] + L[i]) + W[i] * W[i] for i in range(n)],
+            [(q[i] + W[i]) * (q[i] + W[i]) + L[i] * L[i] for i in range(n)])
+
+
+def s1_swap_low(scn, v):
+    """Region where the lower grid limit computed with the slit roles swapped
+    (min(q - q_length) instead of min(q - q_width)) misses a window: it lies
+    above min(q - W), or strictly inside (0, 0.02 min q) where the cutoff then
+    removes the points that the correct limit (>= cutoff) would have kept."""
+    sw, ok, _a, _b = _s1_limits(scn, v)
+    qmin_sw, qmin_ok = _minimum(sw), _minimum(ok)
+    return g_or(qmin_sw > qmin_ok, s1_swap_cut(scn, v))
+
+
+def s1_swap_cut(scn, v):
+    """Sub-region of s1_swap_low in which the first surviving grid point is an
+    interior point of the geometric extension (depends on the uninterpreted
+    logarithms): witnesses are looked for outside it first."""
+    sw, ok, _a, _b = _s1_limits(scn, v)
+    qmin_sw, qmin_ok = _minimum(sw), _minimum(ok)
+    cut = CUT * v["q"][0]
+    return g_and(qmin_sw > 0.0, qmin_sw < cut, qmin_sw < qmin_ok)
+
+
+def s1_swap_high(scn, v):
+    """Region where the upper grid limit computed with the roles swapped,
+    max sqrt((q+L)^2+W^2), is below the needed max sqrt((q+W)^2+L^2).  Written
+    with the same sqrt terms as the code, so that it is linear once they are
+    abstracted."""
+    _sw, _ok, a, b = _s1_limits(scn, v)
+    sa, sb = [g_sqrt(x) for x in a], [g_sqrt(x) for x in b]
+    return g_or(*[g_and(*[sa[i] < sb[j] for i in range(len(a))]) for j in range(len(b))])
+
+
+def s1_cover_low(scn, v, o):
+    """min(q_calc) <= q - W for every point (and every data point is a q_calc point)."""
+    if not _ok(o):
+        return []
+    q, G = v["q"], list(o["G"])
+    _L, W = scn.per_point(v)
+    return [Rel("le", G[0], q[i] - W[i], "min(q_calc) <= q[%d]-W" % i, scale=0.0)
+            for i in range(len(q))] + _data_in_grid(G, q)
+
+
+s1_cover_low.first_exclude = s1_swap_cut
+
+
+def s1_cover_high(scn, v, o):
+    """max(q_calc) >= sqrt((q+W)^2+L^2) for every point."""
     if not _ok(o):
         return []
     q, G = v["q"], list(o["G"])
@@ -271,8 +324,7 @@ def s1_cover(scn, v, o):
     for i in range(len(q)):
         hi = g_sqrt((q[i] + W[i]) * (q[i] + W[i]) + L[i] * L[i]) if not _zero(L[i]) else q[i] + W[i]
         out.append(Rel("ge", G[-1], hi, "max(q_calc) >= sqrt((q[%d]+W)^2+L^2)" % i, scale=0.0))
-        out.append(Rel("le", G[0], q[i] - W[i], "min(q_calc) <= q[%d]-W" % i, scale=0.0))
-    return out + _data_in_grid(G, q)
+    return out
 
 
 def _zero(x):
@@ -288,7 +340,9 @@ def s1_norm(scn, v, o):
     q, G = v["q"], list(o["G"])
     if len(G) < 2:
         return []
-    guard = g_not(s1_floor(scn, v))
+    # claimed where q_calc spans the windows: outside the low-q floor and outside the
+    # region where the swapped slit roles leave the grid too short (known findings)
+    guard = g_not(g_or(s1_floor(scn, v), s1_swap_low(scn, v), s1_swap_high(scn, v)))
     if not RS.issym(*G) and not RS.issym(*q):
         W = o["W"]
         return [Rel("eq", float(np.sum(W[:, i])), 1.0, "column %d of the real weight matrix sums to 1" % i,
@@ -410,7 +464,8 @@ ORACLES = {
     "pinhole1d": [("defined", ctor_defined), ("grid", ctor_grid), ("builder-args", p1_args),
                   ("stores-result", ctor_stores), ("coverage", p1_cover), ("apply", apply_linear)],
     "slit1d": [("defined", ctor_defined), ("grid", ctor_grid), ("builder-args", s1_args),
-               ("stores-result", ctor_stores), ("coverage", s1_cover), ("normalised", s1_norm),
+               ("stores-result", ctor_stores), ("coverage-low", s1_cover_low),
+               ("coverage-high", s1_cover_high), ("normalised", s1_norm),
                ("apply", apply_linear)],
     "pinhole2d": [("defined", ctor_defined), ("cloud-shape-and-weights", p2_shape), ("apply", p2_apply)],
     "slit2d": [("defined", ctor_defined)],
@@ -426,7 +481,7 @@ def oracles_for(scn):
     if scn.kind == "pinhole1d" and scn.cfg.get("width") == "zero":
         ors.append(("zero-width-grid", p1_zero))
     if scn.cfg.get("grid") == "user":
-        ors = [(n, f) for n, f in ors if n not in ("coverage", "normalised")]
+        ors = [(n, f) for n, f in ors if not n.startswith("coverage") and n != "normalised"]
     return ors
 
 
@@ -489,9 +544,16 @@ def classify(scn, oname, v, o_sym, vals=None, bad=()):
         if oname == "grid" and cfg["n"] == 1 and tag == "zero":
             key = "%s/slit1d/single-point-zero-width-raises" % PID
             block = z3.BoolVal(True)
-        if oname == "coverage" and only_low and vals is not None and s1_floor(scn, vals):
-            key = "%s/slit1d-%s/window-below-low-q-floor" % (PID, tag)
-            block = symx._lb(s1_floor(scn, v))
+        if oname == "coverage-low" and only_low and vals is not None:
+            if s1_floor(scn, vals):
+                key = "%s/slit1d-%s/window-below-low-q-floor" % (PID, tag)
+                block = symx._lb(s1_floor(scn, v))
+            elif s1_swap_low(scn, vals):
+                key = "%s/slit1d-%s/coverage-low-roles-swapped" % (PID, tag)
+                block = symx._lb(s1_swap_low(scn, v))
+        if oname == "coverage-high" and vals is not None and s1_swap_high(scn, vals):
+            key = "%s/slit1d-%s/coverage-high-roles-swapped" % (PID, tag)
+            block = symx._lb(s1_swap_high(scn, v))
     elif kind == "slit-matrix":
         key = "%s/slit-matrix-%s/%s" % (PID, cfg["mode"], oname)
     elif kind == "slit2d" and oname == "defined":
@@ -556,6 +618,15 @@ def margin(scn):
     return symx.rat(1e-6)
 
 
+def _collect_blocks(h, met):
+    def wrapped(m):
+        info = h(m)
+        if info.get("reproduced") and info.get("block") is not None:
+            met.append(info["block"])
+        return info
+    return wrapped
+
+
 def outputs_of(p):
     if p.exc is not None:
         return {"exc": "%s: %s" % (type(p.exc).__name__, p.exc)}
@@ -594,8 +665,19 @@ def run_unit(job, spec):
             rels = fn(scn, v, dict(o, notes=p.notes) if "exc" not in o else o)
             if not rels:
                 continue
-            pp.prove(oname, rels, handler(scn, oname, o, spec), sample=(pi == 0 and oname != "defined"),
-                     slice=getattr(fn, "slice", False), mandatory=mandatory)
+            h = handler(scn, oname, o, spec)
+            blockers = None
+            first = getattr(fn, "first_exclude", None)
+            if first is not None:
+                # witnesses are looked for first outside a region where the symbolic grid depends on
+                # uninterpreted values (a witness from there may not replay); the regions of the known
+                # findings met in that pass are then excluded from the full obligation
+                met = []
+                h1 = _collect_blocks(h, met)
+                pp.prove(oname, rels, h1, blockers=[z3.Not(symx._lb(first(scn, v)))], mandatory=mandatory)
+                blockers = [z3.Not(b) for b in met]
+            pp.prove(oname, rels, h, sample=(pi == 0 and oname != "defined"),
+                     slice=getattr(fn, "slice", False), mandatory=mandatory, blockers=blockers)
             if oname == "grid" or oname.startswith("lemma:"):
                 # grid: whatever is wrong with it is reported once, here;
                 # lemma: an intermediate identity, proved first, then used
